@@ -595,6 +595,21 @@ def C15(ck):
         k = rnd.randint(3, 8)
         ch = [rnd.choice(T_NAMES) for _ in range(k)]
         cases += stream_cases(ch, rnd.choice(E_NAMES), 2, size=6000)
+    # third clause: every type in a header names the variant really used. Entropy NONE, canonical spelling, every ordered pair of
+    # transforms and the same-family pairs with another stage (or a NONE filler) in between, on two data shapes: the driver undoes
+    # the stream stage by stage with codecs built from the header types alone (field `stagewise`)
+    fams = [('LZ', 'LZX', 'LZP'), ('MTFT', 'RANK'), ('ROLZ', 'ROLZX'), ('PACK', 'DNA'), ('BWT', 'BWTS')]
+    vchains = [[a, b] for a in T_NAMES for b in T_NAMES]
+    for fam in fams:
+        for a in fam:
+            for b in fam:
+                for x in (('NONE', 'RLT', 'TEXT', 'BWT', 'ZRLT') if T else ('NONE', 'RLT', 'TEXT')):
+                    vchains.append([a, x, b])
+    for ch in vchains:
+        for shape in ('html', 'runs', 'dnarep') if T else ('html', 'runs'):
+            key = '+'.join(ch) + '&NONE|v|' + shape
+            cases.append({'kind': 's', 'names': ch, 'ename': 'NONE', 'shape': shape, 'size': 9000, 'key': key, 'block': 16384,
+                          'masks': [0] * len(ch), 'emask': 0, 'canon': True})
     # headerless streams
     for n in ('ROLZX', 'TEXT', 'LZ'):
         for e in ('TPAQX', 'ANS0'):
@@ -619,7 +634,16 @@ def C15(ck):
     ck.cov['transitions'] += res.generated
     for ln, pred in re.findall(r'<<"VIOLATION_AT", (\d+), "([^"]+)">>', res.out):
         e = tr[int(ln) - 1]
-        ck.violation({'kind': 'names', 'pred': pred, 'spelled': e.get('spelled'), 'rt': e.get('rt')}, {'cmd': 'names', 'event': e}, name='names')
+        names = e.get('names') or []
+        sw = e.get('stagewise', '')
+        w = {'kind': 'names', 'pred': pred, 'spelled': e.get('spelled'), 'rt': e.get('rt')}
+        if pred == 'C15_header_type_is_not_the_variant_used':
+            # the diagnosis of the driver identifies the finding: which stage, which variant really encoded it
+            m = re.search(r'header says (\w+), the data were encoded by (\w+)', sw)
+            w['stagewise'] = sw
+            w['mismatch'] = ('%s encoded by %s' % (m.group(1), m.group(2))) if m else 'other'
+            w['both_rolz_variants_in_chain'] = ('ROLZ' in names and 'ROLZX' in names)
+        ck.violation(w, {'cmd': 'names', 'event': e}, name='names')
     ns = len([x for x in cases if x['kind'] == 's'])
     ck.cov['evaluations'] += len(cases)
     ck.cov['distinct_nontrivial'] += len(set(json.dumps(x, sort_keys=True) for x in cases if x['kind'] == 's' or len(x.get('names', [])) > 1))
@@ -631,7 +655,9 @@ def C15(ck):
                       'variant of the 19 transform and 9 entropy names, all chains of length 2 (3), random chains to 8 with NONE fillers through the real '
                       'GetType/GetName, judged against the spec tables by Trace_Names.tla; every name (and sampled chains) end to end through '
                       'Writer/Reader in lower/mixed case on data that activates the variant: stream digest must equal the canonical spelling, header type '
-                      'codes (independent parser) must equal the spec codes, round trip must succeed. non-trivial = stream case or chain case')
+                      'codes (independent parser) must equal the spec codes, round trip must succeed; every ordered pair of transforms and the same-family '
+                      'pairs with a stage in between (entropy NONE) are undone stage by stage with codecs built from the header types alone: every type '
+                      'must name the variant that encoded the stage. non-trivial = stream case or chain case')
     for f in (base + '.cases', base + '.ndjson'):
         os.remove(f)
 
@@ -1135,6 +1161,19 @@ def C19(ck):
         for i in range(20 if T else 4):
             o = kzcli.level_opts(rnd) + kzcli.extra_opts(rnd)
             cli.to_dir(rnd, k, o, ' '.join(o), force=(i % 2 == 0))
+            k += 1
+        # degenerate trees (single file below a sub-directory, nothing at the top level, same name in two directories, ...)
+        for si, shape in enumerate(kzcli.TREE_SHAPES[1:]):
+            for rep in range(2 if T else 1):
+                o = kzcli.level_opts(rnd) + kzcli.extra_opts(rnd)
+                cli.to_dir(rnd, k, o, ' '.join(o), force=((si + rep) % 2 == 0), shape=shape)
+                k += 1
+                if T or si % 2 == 0:
+                    cli.inplace_rm(rnd, k, o, ' '.join(o), shape=shape)
+                    k += 1
+        for i in range(4 if T else 1):
+            o = kzcli.level_opts(rnd) + ['-v', '0']
+            cli.path_forms(rnd, k, o, ' '.join(o))
             k += 1
         for i in range(20 if T else 4):
             o = kzcli.level_opts(rnd) + kzcli.extra_opts(rnd)
